@@ -80,6 +80,18 @@ def gen_cases(rng, tier):
                         if v[0] != "single":
                             break
                 near_dup(ver, v, mutate_one(rng, v), v[0])
+    # code objects that agree in every field but one, for each field in turn (two lambdas on one line differ in co_names only, ...)
+    for ver in VERS:
+        lay = pm.code_layout(ver)
+        nint, nobj = sum(1 for f in lay if f == "i"), sum(1 for f in lay if f == "o")
+        ints = tuple(struct.pack("<I", 3 + j) for j in range(nint))
+        objs = tuple(("seq", b"(", (("str", b"z", b"field%d" % j), ("int", struct.pack("<i", j)))) if j % 2 else ("str", b"s", b"bytes-of-field-%d" % j) for j in range(nobj))
+        base = ("code", ints, objs)
+        for j in range(nint):
+            near_dup(ver, base, ("code", ints[:j] + (struct.pack("<I", 77),) + ints[j + 1:], objs), "code-int-field%d" % j)
+        for j in range(nobj):
+            other = ("seq", b"(", (("str", b"z", b"other%d" % j),)) if j % 2 else ("str", b"s", b"other-bytes-%d" % j)
+            near_dup(ver, base, ("code", ints, objs[:j] + (other,) + objs[j + 1:]), "code-obj-field%d" % j)
     # the same members in another order: element order is part of the value for every sequence kind, frozensets included
     # (an interpreter dumps a frozenset in iteration order, and two constants may hold the same strings in different orders)
     for ver in VERS:
